@@ -197,11 +197,44 @@ def extra_cases(rng, tier):
     return out
 
 
+LITERALS = [('LdrLiteral', 'LWord'), ('LdrbLiteral', 'LByte'), ('LdrhLiteral', 'LHalf'), ('LdrsbLiteral', 'LSByte'), ('LdrshLiteral', 'LSHalf')]
+
+
+def literal_cases(rng, tier):
+    """the PC-relative loads against Spec/LoadStoreUnpriv.v (LOAD_lit / LOAD_lit_word): base Align(PC, 4), both signs, loads to the PC"""
+    t = statelib.load_index(C.GEN)['tables']
+    out = []
+    per = 24 if tier == 'quick' else 1000
+    for cls, kind in LITERALS:
+        for _ in range(per):
+            thumb = rng.random() < 0.5
+            cfgd, st, secure = mk_state(rng, t, thumb)
+            arch, jaz = cfgd['arch_version'], int(cfgd['jazelle_accepts_execution'])
+            virt = b(cfgd['have_virt_ext'])
+            add = rng.choice([0, 1])
+            imm32 = rng.choice([0, 1, 2, 3, 4, 5, 8, 0x10, 0x41, 0xFF, 0xFFF])
+            tt = rng.choice([0, 4, 5, 12, 14] + ([15, 15] if kind == 'LWord' else []))
+            cfg = statelib.coq_config(cfgd, t)
+            m = statelib.coq_machine(st)
+            rd = f'(fun a sz s => MemU_get_flat {arch} {virt} {b(secure)} s a sz)'
+            spec = f'(LOAD_lit_word {rd} {arch} {jaz} {m} {add} {imm32} {tt})' if kind == 'LWord' else f'(LOAD_lit {rd} {kind} {m} {add} {imm32} {tt})'
+            out.append({'impl': {'kind': 'exec', 'state': st, 'module': snake(cls), 'cls': cls, 'fields': [0, add, imm32, tt]},
+                        'model': f'(enc_out enc_machine enc_unit ({cls}_execute {cfg} 0 {add} {imm32} {tt} {m}))',
+                        'spec': f'(enc_out enc_machine enc_unit {spec})', 'label': cls, 'nontrivial': True})
+    return out
+
+
+def extra_and_literal_cases(rng, tier):
+    return extra_cases(rng, tier) + literal_cases(rng, tier)
+
+
 def units():
     thms = ['C02_LDR_imm_arm', 'C02_LDR_imm_thumb', 'C02_LDR_reg_arm', 'C02_LDRB_imm_arm', 'C02_LDRSH_imm', 'C02_STR_imm_arm',
             'C02_STRB_reg', 'C02_rd_ok_flat', 'C02_wr_ok_flat']
     needs = ['opcodes.abstract_opcodes.%s.%s.execute' % (mod, cls) for (cls, mod, _, _, _) in CLASSES]
     return [Unit('load_store', thms, ['Proofs/LSProofs.v', 'Proofs/MemProofs.v'], needs, cases, IMPORTS, SPEC_IMPORTS),
-            Unit('load_store_extra', ['C02_' + cls for (cls, _, _, _) in EXTRA] + ['C02_rd_ok_flat_unpriv', 'C02_wr_ok_flat_unpriv'],
-                 ['Proofs/LSProofs2.v', 'Proofs/LSProofs3.v'],
-                 ['opcodes.abstract_opcodes.%s.%s.execute' % (snake(cls), cls) for (cls, _, _, _) in EXTRA], extra_cases, IMPORTS, SPEC_IMPORTS)]
+            Unit('load_store_extra', ['C02_' + cls for (cls, _, _, _) in EXTRA] + ['C02_' + cls for cls, _ in LITERALS] +
+                 ['C02_rd_ok_flat_unpriv', 'C02_wr_ok_flat_unpriv'],
+                 ['Proofs/LSProofs2.v', 'Proofs/LSProofs3.v', 'Proofs/LSProofs4.v'],
+                 ['opcodes.abstract_opcodes.%s.%s.execute' % (snake(cls), cls) for cls in [c for (c, _, _, _) in EXTRA] + [c for c, _ in LITERALS]],
+                 extra_and_literal_cases, IMPORTS, SPEC_IMPORTS + '\nFrom ArmV Require Import Spec.LoadStoreUnpriv.')]
